@@ -48,3 +48,23 @@ CLAIMED.update({
         note="The self-referral and mutual-referral checks are Anchor account constraints / handler code (instructions/user.rs) and are NOT decided. Trusted: kani-compiler + CBMC.",
         technique="Kani/CBMC symbolic execution of the real referral state transitions over arbitrary account images", design="C33"),
 })
+
+CLAIMED.update({
+    "C25": dict(
+        text=BOUNDED + "one inductive step of the real PriceFeed::update from every feed state with a well-formed stored price (all i64 timestamps, u64 slots, u128 prices), every new price image, "
+             "every clock (now, slot), every max-future-excess and both modes, against an exact acceptance oracle: an update is applied iff the clock did not go backwards, the price timestamp is not older, "
+             "not beyond now + excess (saturating) and min <= price <= max; applied updates store exactly the new price and the current slot/time; in idempotent mode an older update returns Ok(false); "
+             "skipped and rejected updates leave the feed unchanged; the price timestamp never decreases and min <= price <= max is preserved, so histories of any length follow.",
+        note="Clock::get is stubbed by an arbitrary clock drawn by the harness; the head of the account (bump, provider, keys) and reserved tail are zero (update does not read them); error-text rendering "
+             "(format!, sol_log, CoreError::name/Display, integer to_string) is stubbed empty. Trusted: kani-compiler + CBMC.",
+        technique="Kani/CBMC one-step induction over the real PriceFeed::update with an exact acceptance oracle", design="C25"),
+    "C21": dict(
+        text=BOUNDED + "buffer level, one inductive step each from an arbitrary state satisfying the revision invariant (no buffered copy carries a revision above the buffer's): (1) after "
+             "start_revertible_operation every pool kind, the clocks and the other state are read from stored state, whatever an earlier committed or abandoned operation left in the buffer; "
+             "(2) pool_mut / clocks_mut / other_mut hand out a buffered copy that starts from the visible value, is what later reads of the same operation see, is not the stored copy, leaves the stored "
+             "copy and the other pool unchanged and preserves the invariant (every pool kind, one harness per kind).",
+        note="NOT decided: commit_to_storage (it builds Vec-backed events and emits them through a CPI; its harness was not attempted within budget) and RevertibleMarket / RevertibleLiquidityMarket "
+             "(mint/burn deferral), which need Anchor account loaders. Pre-states are built field-wise through cfg(gmsol_verif) raw accessors: buffer revision, the copies under observation, clocks and other "
+             "state arbitrary, untouched state zero. Trusted: kani-compiler + CBMC.",
+        technique="Kani/CBMC one-step induction over the real revertible buffer of an in-memory market", design="C21"),
+})
